@@ -197,6 +197,8 @@ CHECKS["C01"] = {
     "text": "parse_minimal_parens / parse_wellformed (for every operator table and every expression tree of any size, the Pratt loop recovers the tree from its minimally parenthesised token list), parse_order_iso (the parse depends on the table only through the order of its numbers and the associativity flags), "
             "table_is_spec + gen_parses_as_spec (the 25-row table, the break test, the next_prec rule, the logical-operator mapping and the prefix operators regenerated from src/parser.rs by bin/extract parse EVERY token list exactly as ECMA-262's nesting of productions does) are Lean theorems; "
             "the model with the regenerated table is compared with the real parser on all 625 operator pairs and 3000 (quick) / 40000 (thorough) random and malformed token lists, the real parser with the model under the specification's table, and every text with its fully parenthesised tree by evaluation. "
+            "M-Coerce: toPrim_exclusive / string_hint_toString_first / number_hint_valueOf_first / calls_at_most_once / both_left_first / strict_never_converts / nullish_eq_no_convert / prim_passthrough (ToPrimitive and every operator over object operands: which "
+            "conversion method is called, in which order, at most once, left operand first, never for === or against null/undefined; TypeError when no primitive results) for every behaviour of the methods, compared with tsrun and the reference engine (result and call log). "
             "M-Obj: lookup_nearest / lookup_append_miss ([[Get]] finds the nearest holder on a prototype chain of any length), forIn_mem_iff / forIn_nodup (for-in reports exactly the keys whose nearest holder has them enumerable, each once, a nearer non-enumerable property hides an inherited one), "
             "resolveCall_spec / bind_compose / new_call_agree (any number of bind layers passes all bound arguments, innermost first, to the innermost target; new and call agree) are Lean theorems, compared with tsrun and the reference engine on generated chains and bind layers. "
             "M-Lib: slice_contiguous / slice_length / slice_last / splice_partition / splice_lengths / fill_get / with_isSome_iff / indexOf_first / substring_swap / padStart_length ... (27 theorems: the relative-index arithmetic of slice, splice, at, with, fill, copyWithin, indexOf, "
